@@ -24,6 +24,8 @@ esac
 case $sse in sse) SSE=1;; nosse) SSE=0;; *) echo "bad sse"; exit 2;; esac
 case $caches in cache) CA=1;; ts) CA=0;; *) echo "bad caches"; exit 2;; esac
 case $par in seq) OMP=0;; omp) OMP=1;; *) echo "bad par"; exit 2;; esac
+# as configure.ac does: --enable-thread-safe turns both caches off, OpenMP turns the header cache off
+MZC=$CA; [ $OMP = 1 ] && MZC=0
 CC=gcc; CFLAGS="-O2 -g -std=gnu99"; LDF=""
 EXTRA=""
 for x in $x1 $x2; do
@@ -57,7 +59,7 @@ cat > $B/m4ri/m4ri_config.h.new <<EOF
 #define __M4RI_USE_MM_MALLOC		(__M4RI_HAVE_MM_MALLOC && __M4RI_HAVE_SSE2)
 #define __M4RI_USE_POSIX_MEMALIGN	(__M4RI_HAVE_POSIX_MEMALIGN && __M4RI_HAVE_SSE2)
 #define __M4RI_DD_QUIET			(0 && !0)
-#define __M4RI_ENABLE_MZD_CACHE         $CA
+#define __M4RI_ENABLE_MZD_CACHE         $MZC
 #define __M4RI_ENABLE_MMC               $CA
 #endif
 EOF
